@@ -435,17 +435,13 @@ def wrap_ufunc(
         try:
             args = tuple(args_parser(*args))
             with np.errstate(divide='ignore', invalid='ignore'):
-                if len(args) >= 32:
-                    shapes = [np.shape(arg) for arg in args]
-                    max_shape = max((s or (1,))[0] for s in shapes)
-                    if max_shape == 1:
-                        res = np.asarray([[
-                            safe_eval(*args2vals(args))
-                        ]], object).view(otype)
-                    else:
-                        res = np.asarray([safe_eval(*v) for v in args2list(
-                            max_shape, shapes, *args
-                        )], object).view(otype)
+                if len(args) >= 32:  # More than `np.vectorize` can take.
+                    arr = [np.asarray(arg, object) for arg in args]
+                    shape = np.broadcast_shapes(*(a.shape for a in arr))
+                    arr = [np.broadcast_to(a, shape) for a in arr]
+                    res = np.empty(shape, object)
+                    for i in np.ndindex(*shape):
+                        res[i] = safe_eval(*(a[i] for a in arr))
                 else:
                     res = np.vectorize(safe_eval, **kw)(*args)
             try:
